@@ -5,6 +5,7 @@ package main
 
 import (
 	"fmt"
+	"os"
 	"go/constant"
 	"go/token"
 	"go/types"
@@ -856,4 +857,142 @@ func flatStructFields(st *types.Struct, prefix string, depth int) []flatField {
 func isBoolType(t types.Type) bool {
 	b, ok := t.Underlying().(*types.Basic)
 	return ok && b.Info()&types.IsBoolean != 0
+}
+
+func isUnsignedType(t types.Type) bool {
+	b, ok := t.Underlying().(*types.Basic)
+	return ok && b.Info()&types.IsUnsigned != 0
+}
+
+// globalTable: a package-level array (or slice) that the package initialiser fills from a composite literal with
+// constant indices and that nothing else writes: index -> stored value (elements not mentioned are absent: zero).
+func globalTable(p *Prog, g *ssa.Global) (tbl map[int64]ssa.Value, size int64, ok bool) {
+	pt, isPtr := g.Type().Underlying().(*types.Pointer)
+	if !isPtr {
+		return nil, 0, false
+	}
+	arr, isArr := pt.Elem().Underlying().(*types.Array)
+	if !isArr {
+		return nil, 0, false
+	}
+	size = arr.Len()
+	var initStore *ssa.Store
+	var direct map[int64]ssa.Value
+	fns := []*ssa.Function{}
+	if ini := g.Pkg.Func("init"); ini != nil {
+		fns = append(fns, ini)
+	}
+	for _, f := range p.Funcs {
+		if f.Pkg == g.Pkg && f.Name() != "init" {
+			fns = append(fns, f)
+		}
+	}
+	for _, f := range fns {
+		bad := false
+		instrsOf(f, func(in ssa.Instruction) {
+			switch x := in.(type) {
+			case *ssa.Store:
+				if x.Addr == ssa.Value(g) {
+					if f.Name() == "init" && initStore == nil {
+						initStore = x
+					} else {
+						if os.Getenv("VCHECK_DEBUG") != "" {
+							fmt.Fprintln(os.Stderr, "globalTable: second store", x, "in", f, initStore)
+						}
+						bad = true
+					}
+				}
+			case *ssa.IndexAddr:
+				if x.X == ssa.Value(g) && f.Name() == "init" {
+					// the initialiser fills the elements in place
+					k, isC := constInt(x.Index)
+					if !isC || x.Referrers() == nil {
+						bad = true
+						return
+					}
+					for _, rf := range *x.Referrers() {
+						st, isSt := rf.(*ssa.Store)
+						if !isSt || st.Addr != ssa.Value(x) {
+							bad = true
+							return
+						}
+						if direct == nil {
+							direct = map[int64]ssa.Value{}
+						}
+						if _, dup := direct[k]; dup {
+							bad = true
+						}
+						direct[k] = st.Val
+					}
+					return
+				}
+				if x.X == ssa.Value(g) {
+					// an element address: only loads are allowed
+					if refs := x.Referrers(); refs != nil {
+						for _, rf := range *refs {
+							if u, isLoad := rf.(*ssa.UnOp); !isLoad || u.Op != token.MUL {
+								if _, isDbg := rf.(*ssa.DebugRef); !isDbg {
+									if os.Getenv("VCHECK_DEBUG") != "" {
+										fmt.Fprintln(os.Stderr, "globalTable: element use", rf, "in", f)
+									}
+									bad = true
+								}
+							}
+						}
+					}
+				}
+			}
+		})
+		if bad {
+			if os.Getenv("VCHECK_DEBUG") != "" {
+				fmt.Fprintln(os.Stderr, "globalTable: bad use in", f)
+			}
+			return nil, 0, false
+		}
+	}
+	if initStore == nil && direct != nil {
+		return direct, size, true
+	}
+	if initStore == nil {
+		if os.Getenv("VCHECK_DEBUG") != "" {
+			fmt.Fprintln(os.Stderr, "globalTable: no init store", len(fns))
+		}
+		return nil, 0, false
+	}
+	ld, isLd := initStore.Val.(*ssa.UnOp)
+	if !isLd || ld.Op != token.MUL {
+		return nil, 0, false
+	}
+	lit, isAlloc := ld.X.(*ssa.Alloc)
+	if !isAlloc || lit.Referrers() == nil {
+		return nil, 0, false
+	}
+	tbl = map[int64]ssa.Value{}
+	for _, rf := range *lit.Referrers() {
+		ia, isIA := rf.(*ssa.IndexAddr)
+		if !isIA {
+			if rf == ssa.Instruction(ld) {
+				continue
+			}
+			if _, isDbg := rf.(*ssa.DebugRef); isDbg {
+				continue
+			}
+			return nil, 0, false
+		}
+		k, isC := constInt(ia.Index)
+		if !isC || ia.Referrers() == nil {
+			return nil, 0, false
+		}
+		for _, r2 := range *ia.Referrers() {
+			st, isSt := r2.(*ssa.Store)
+			if !isSt || st.Addr != ssa.Value(ia) {
+				return nil, 0, false
+			}
+			if _, dup := tbl[k]; dup {
+				return nil, 0, false
+			}
+			tbl[k] = st.Val
+		}
+	}
+	return tbl, size, true
 }
